@@ -284,7 +284,7 @@ theorem parseGo_spec (w : WordInfoData) (rest : Bytes) :
       ∃ info', parseGo (fe.map (·.1)) flds (encAll fe ++ rest) info = .ok info' ∧
         (∀ p ∈ fe, flds.testBit p.1.bit = true → proj p.1.bit info' = proj p.1.bit w) ∧
         (∀ pre p post, fe = pre ++ p :: post → p.1.heavy = false →
-            (∃ q ∈ p :: post, flds.testBit q.1.bit = true) → proj p.1.bit info' = proj p.1.bit w) ∧
+            (∃ c, flds.testBit c = true ∧ ∀ q ∈ pre, q.1.bit ≠ c) → proj p.1.bit info' = proj p.1.bit w) ∧
         (∀ j, (∀ p ∈ fe, p.1.bit ≠ j) → proj j info' = proj j info) := by
   intro fe
   induction fe with
@@ -310,7 +310,7 @@ theorem parseGo_spec (w : WordInfoData) (rest : Bytes) :
       refine ⟨info, rfl, ?_, ?_, fun _ _ => rfl⟩
       · intro g _ hg; simp at hg
       · intro pre p post _ _ hq
-        obtain ⟨q, _, hq⟩ := hq; simp at hq
+        obtain ⟨c, hq, _⟩ := hq; simp at hq
     · simp only [hemp, if_false]
       obtain ⟨upd, hdec, hown, hframe⟩ := hokf.dec_enc (encAll fs ++ rest)
       -- the "parse" arm, shared by light fields and requested heavy fields
@@ -318,7 +318,7 @@ theorem parseGo_spec (w : WordInfoData) (rest : Bytes) :
           ∃ info', parseGo (fs.map (·.1)) (remove flds f.bit) (encAll fs ++ rest) (upd info) = .ok info' ∧
             (∀ p ∈ (f, enc) :: fs, flds.testBit p.1.bit = true → proj p.1.bit info' = proj p.1.bit w) ∧
             (∀ pre p post, (f, enc) :: fs = pre ++ p :: post → p.1.heavy = false →
-              (∃ q ∈ p :: post, flds.testBit q.1.bit = true) → proj p.1.bit info' = proj p.1.bit w) ∧
+              (∃ c, flds.testBit c = true ∧ ∀ q ∈ pre, q.1.bit ≠ c) → proj p.1.bit info' = proj p.1.bit w) ∧
             (∀ j, (∀ p ∈ (f, enc) :: fs, p.1.bit ≠ j) → proj j info' = proj j info) := by
         obtain ⟨info', h1, h2, h3, h4⟩ := ih (remove flds f.bit) (upd info) hok' hd'
         have hfown : proj f.bit info' = proj f.bit w := by
@@ -338,13 +338,15 @@ theorem parseGo_spec (w : WordInfoData) (rest : Bytes) :
             exact hfown
           | cons a pre' =>
             simp only [List.cons_append, List.cons.injEq] at hsplit
-            obtain ⟨_, hfs⟩ := hsplit
+            obtain ⟨ha, hfs⟩ := hsplit
             apply h3 pre' p post hfs hl
-            obtain ⟨q, hqm, hqb⟩ := hq
-            refine ⟨q, hqm, ?_⟩
-            have hqfs : q ∈ fs := by rw [hfs]; exact List.mem_append_right _ hqm
-            rw [testBit_remove, hqb]
-            simp [hne q hqfs]
+            obtain ⟨c, hcb, hcpre⟩ := hq
+            refine ⟨c, ?_, fun q hq => hcpre q (by simp [hq])⟩
+            have hfc : f.bit ≠ c := by
+              have := hcpre a (by simp)
+              rw [← ha] at this; exact this
+            rw [testBit_remove, hcb]
+            simp [hfc]
         · intro j hj
           rw [h4 j (fun g hg => hj g (by simp [hg]))]
           exact hframe info j (fun h => hj (f, enc) (by simp) h.symm)
@@ -368,9 +370,118 @@ theorem parseGo_spec (w : WordInfoData) (rest : Bytes) :
               simp [hh] at hl
             | cons a pre' =>
               simp only [List.cons_append, List.cons.injEq] at hsplit
-              exact h3 pre' p post hsplit.2 hl hq
+              obtain ⟨c, hcb, hcpre⟩ := hq
+              exact h3 pre' p post hsplit.2 hl ⟨c, hcb, fun q hq => hcpre q (by simp [hq])⟩
       · simp only [hh, Bool.false_eq_true, if_false, hdec]
         exact parseBranch
+
+theorem eq_zero_of_testBit_false {s : Nat} (h : ∀ c, s.testBit c = false) : s = 0 :=
+  Nat.eq_of_testBit_eq (by intro i; simp [h i])
+
+/-- **Unloaded fields keep what they held.**  Frame of the macro sequence, for any outcome `info'`
+of the parse: a heavy field that is not requested is skipped; a light field that is reached when
+every bit still set in the request belongs to an earlier field is not reached at all (the macro has
+returned); a field that is not in the sequence is never written. -/
+theorem parseGo_unloaded (w : WordInfoData) (rest : Bytes) :
+    ∀ (fe : List (Field × Bytes)) (flds : Nat) (info info' : WordInfoData),
+      (∀ p ∈ fe, FieldOk w p.1 p.2) → (fe.map (·.1.bit)).Pairwise (· ≠ ·) →
+      parseGo (fe.map (·.1)) flds (encAll fe ++ rest) info = .ok info' →
+      (∀ p ∈ fe, p.1.heavy = true → flds.testBit p.1.bit = false → proj p.1.bit info' = proj p.1.bit info) ∧
+      (∀ pre p post, fe = pre ++ p :: post → p.1.heavy = false →
+          (∀ c, flds.testBit c = true → ∃ q ∈ pre, q.1.bit = c) → proj p.1.bit info' = proj p.1.bit info) ∧
+      (∀ j, (∀ p ∈ fe, p.1.bit ≠ j) → proj j info' = proj j info) := by
+  intro fe
+  induction fe with
+  | nil =>
+    intro flds info info' _ _ h
+    simp only [List.map, parseGo] at h
+    cases h
+    exact ⟨fun _ _ _ _ => rfl, fun _ _ _ _ _ _ => rfl, fun _ _ => rfl⟩
+  | cons fp fs ih =>
+    intro flds info info' hok hd h
+    obtain ⟨f, enc⟩ := fp
+    have hokf : FieldOk w f enc := hok (f, enc) (by simp)
+    have hok' : ∀ p ∈ fs, FieldOk w p.1 p.2 := fun p hp => hok p (by simp [hp])
+    have hd' : (fs.map (·.1.bit)).Pairwise (· ≠ ·) := by
+      simp only [List.map, List.pairwise_cons] at hd; exact hd.2
+    have hne : ∀ g ∈ fs, f.bit ≠ g.1.bit := by
+      simp only [List.map, List.pairwise_cons] at hd
+      intro g hg; exact hd.1 g.1.bit (List.mem_map.mpr ⟨g, hg, rfl⟩)
+    simp only [List.map, parseGo, encAll_cons, List.append_assoc] at h
+    by_cases hemp : flds = 0
+    · subst hemp
+      simp only [if_true] at h
+      cases h
+      exact ⟨fun _ _ _ _ => rfl, fun _ _ _ _ _ _ => rfl, fun _ _ => rfl⟩
+    · simp only [hemp, if_false] at h
+      obtain ⟨upd, hdec, hown, hframe⟩ := hokf.dec_enc (encAll fs ++ rest)
+      have parseBranch : (f.heavy = true → flds.testBit f.bit = true) →
+          parseGo (fs.map (·.1)) (remove flds f.bit) (encAll fs ++ rest) (upd info) = .ok info' →
+          (∀ p ∈ (f, enc) :: fs, p.1.heavy = true → flds.testBit p.1.bit = false → proj p.1.bit info' = proj p.1.bit info) ∧
+          (∀ pre p post, (f, enc) :: fs = pre ++ p :: post → p.1.heavy = false →
+              (∀ c, flds.testBit c = true → ∃ q ∈ pre, q.1.bit = c) → proj p.1.bit info' = proj p.1.bit info) ∧
+          (∀ j, (∀ p ∈ (f, enc) :: fs, p.1.bit ≠ j) → proj j info' = proj j info) := by
+        intro harm h
+        obtain ⟨h1, h2, h3⟩ := ih (remove flds f.bit) (upd info) info' hok' hd' h
+        refine ⟨?_, ?_, ?_⟩
+        · intro g hg hheavy hgm
+          rcases List.mem_cons.mp hg with rfl | hg
+          · rw [harm hheavy] at hgm; cases hgm
+          · rw [h1 g hg hheavy (by rw [testBit_remove, hgm]; rfl)]
+            exact hframe info g.1.bit (fun e => hne g hg e.symm)
+        · intro pre p post hsplit hl hall
+          cases pre with
+          | nil =>
+            exfalso; apply hemp; apply eq_zero_of_testBit_false; intro c
+            cases hc : flds.testBit c with
+            | false => rfl
+            | true => obtain ⟨q, hq, _⟩ := hall c hc; simp at hq
+          | cons a pre' =>
+            simp only [List.cons_append, List.cons.injEq] at hsplit
+            obtain ⟨ha, hfs⟩ := hsplit
+            have hp : p ∈ fs := by rw [hfs]; simp
+            have key := h2 pre' p post hfs hl (by
+              intro c hc
+              rw [testBit_remove] at hc
+              simp only [Bool.and_eq_true, Bool.not_eq_true', decide_eq_false_iff_not] at hc
+              obtain ⟨q, hq, hqc⟩ := hall c hc.1
+              rcases List.mem_cons.mp hq with rfl | hq
+              · exfalso; rw [← ha] at hqc; exact hc.2 hqc
+              · exact ⟨q, hq, hqc⟩)
+            rw [key]
+            exact hframe info p.1.bit (fun e => hne p hp e.symm)
+        · intro j hj
+          rw [h3 j (fun g hg => hj g (by simp [hg]))]
+          exact hframe info j (fun e => hj (f, enc) (by simp) e.symm)
+      by_cases hh : f.heavy = true
+      · simp only [hh, if_true] at h
+        by_cases hc : flds.testBit f.bit = true
+        · simp only [hc, if_true, hdec] at h
+          exact parseBranch (fun _ => hc) h
+        · simp only [hc, Bool.false_eq_true, if_false, hokf.skip_enc] at h
+          obtain ⟨h1, h2, h3⟩ := ih flds info info' hok' hd' h
+          refine ⟨?_, ?_, fun j hj => h3 j (fun g hg => hj g (by simp [hg]))⟩
+          · intro g hg hheavy hgm
+            rcases List.mem_cons.mp hg with rfl | hg
+            · exact h3 _ (fun q hq => (hne q hq).symm)
+            · exact h1 g hg hheavy hgm
+          · intro pre p post hsplit hl hall
+            cases pre with
+            | nil =>
+              simp only [List.nil_append, List.cons.injEq] at hsplit
+              obtain ⟨rfl, _⟩ := hsplit
+              simp [hh] at hl
+            | cons a pre' =>
+              simp only [List.cons_append, List.cons.injEq] at hsplit
+              obtain ⟨ha, hfs⟩ := hsplit
+              apply h2 pre' p post hfs hl
+              intro c hcc
+              obtain ⟨q, hq, hqc⟩ := hall c hcc
+              rcases List.mem_cons.mp hq with rfl | hq
+              · exfalso; rw [← ha] at hqc; simp only at hqc; rw [hqc] at hc; exact hc hcc
+              · exact ⟨q, hq, hqc⟩
+      · simp only [hh, Bool.false_eq_true, if_false, hdec] at h
+        exact parseBranch (fun e => absurd e hh) h
 
 /-! ## C. the concrete record -/
 
@@ -451,10 +562,11 @@ theorem encode_distinct (w : WordInfoData) : ((encode w).map (·.1.bit)).Pairwis
     fWordStructure, fSynonymGroupIds, SURFACE, HEAD_WORD_LENGTH, POS_ID, NORMALIZED_FORM, DIC_FORM_WORD_ID,
     READING_FORM, SPLIT_A, SPLIT_B, WORD_STRUCTURE, SYNONYM_GROUP_ID]
 
-/-- is field number `b` assigned by a parse with request `S`?  requested, or light with a later
-(or the same) field requested -/
+/-- is field number `b` assigned by a parse with request `S`?  requested, or light with some bit
+that is not below it still set when the macro reaches it (a later field, or a junk bit above the
+ten flags: `flds` is then never empty) -/
 def Loaded (S b : Nat) : Prop :=
-  b < 10 ∧ (S.testBit b = true ∨ ((b = 1 ∨ b = 2 ∨ b = 4) ∧ ∃ c, b ≤ c ∧ c < 10 ∧ S.testBit c = true))
+  b < 10 ∧ (S.testBit b = true ∨ ((b = 1 ∨ b = 2 ∨ b = 4) ∧ ∃ c, b ≤ c ∧ S.testBit c = true))
 
 /-- `WordInfoParser::parse` on a well-formed record: never fails, whatever the request and
 whatever follows the record; loaded fields hold the word's values; the dictionary form string is
@@ -466,7 +578,7 @@ theorem parse_spec (w : WordInfoData) (h : WF w) (S : Nat) (rest : Bytes) :
   refine ⟨info, by rw [parse, encodeBytes, ← encode_fields w]; exact h1, ?_, ?_⟩
   · intro b hb
     obtain ⟨hb10, hb⟩ := hb
-    rcases hb with hreq | ⟨hlight, c, hbc, hc10, hc⟩
+    rcases hb with hreq | ⟨hlight, c, hbc, hc⟩
     · have : b = 0 ∨ b = 1 ∨ b = 2 ∨ b = 3 ∨ b = 4 ∨ b = 5 ∨ b = 6 ∨ b = 7 ∨ b = 8 ∨ b = 9 := by omega
       rcases this with rfl | rfl | rfl | rfl | rfl | rfl | rfl | rfl | rfl | rfl
       · exact h2 (fSurface, encStr w.surface) (by simp [encode]) hreq
@@ -479,53 +591,121 @@ theorem parse_spec (w : WordInfoData) (h : WF w) (S : Nat) (rest : Bytes) :
       · exact h2 (fSplitB, encArr w.bUnitSplit) (by simp [encode]) hreq
       · exact h2 (fWordStructure, encArr w.wordStructure) (by simp [encode]) hreq
       · exact h2 (fSynonymGroupIds, encArr w.synonymGroupIds) (by simp [encode]) hreq
-    · -- a later requested field keeps `flds` non-empty when the light field is reached
-      have hq : ∀ (post : List (Field × Bytes)), (∀ d, b ≤ d → d < 10 → ∃ q ∈ post, q.1.bit = d) →
-          ∃ q ∈ post, S.testBit q.1.bit = true := by
-        intro post hpost
-        obtain ⟨q, hq, hqb⟩ := hpost c hbc hc10
-        exact ⟨q, hq, by rw [hqb]; exact hc⟩
+    · -- a requested field that is not before the light field keeps `flds` non-empty when it is reached
       rcases hlight with rfl | rfl | rfl
-      · refine h3 [(fSurface, encStr w.surface)] (fHeadWordLength, encLen w.headWordLength) _ rfl rfl (hq _ ?_)
-        intro d hd1 hd2
-        have : d = 1 ∨ d = 2 ∨ d = 3 ∨ d = 4 ∨ d = 5 ∨ d = 6 ∨ d = 7 ∨ d = 8 ∨ d = 9 := by omega
-        rcases this with rfl | rfl | rfl | rfl | rfl | rfl | rfl | rfl | rfl
-        · exact ⟨(fHeadWordLength, encLen w.headWordLength), by simp, rfl⟩
-        · exact ⟨(fPosId, encU16 w.posId), by simp, rfl⟩
-        · exact ⟨(fNormalizedForm, encStr w.normalizedForm), by simp, rfl⟩
-        · exact ⟨(fDicFormWordId, encI32 w.dictionaryFormWordId), by simp, rfl⟩
-        · exact ⟨(fReadingForm, encStr w.readingForm), by simp, rfl⟩
-        · exact ⟨(fSplitA, encArr w.aUnitSplit), by simp, rfl⟩
-        · exact ⟨(fSplitB, encArr w.bUnitSplit), by simp, rfl⟩
-        · exact ⟨(fWordStructure, encArr w.wordStructure), by simp, rfl⟩
-        · exact ⟨(fSynonymGroupIds, encArr w.synonymGroupIds), by simp, rfl⟩
-      · refine h3 [(fSurface, encStr w.surface), (fHeadWordLength, encLen w.headWordLength)] (fPosId, encU16 w.posId) _ rfl rfl (hq _ ?_)
-        intro d hd1 hd2
-        have : d = 2 ∨ d = 3 ∨ d = 4 ∨ d = 5 ∨ d = 6 ∨ d = 7 ∨ d = 8 ∨ d = 9 := by omega
-        rcases this with rfl | rfl | rfl | rfl | rfl | rfl | rfl | rfl
-        · exact ⟨(fPosId, encU16 w.posId), by simp, rfl⟩
-        · exact ⟨(fNormalizedForm, encStr w.normalizedForm), by simp, rfl⟩
-        · exact ⟨(fDicFormWordId, encI32 w.dictionaryFormWordId), by simp, rfl⟩
-        · exact ⟨(fReadingForm, encStr w.readingForm), by simp, rfl⟩
-        · exact ⟨(fSplitA, encArr w.aUnitSplit), by simp, rfl⟩
-        · exact ⟨(fSplitB, encArr w.bUnitSplit), by simp, rfl⟩
-        · exact ⟨(fWordStructure, encArr w.wordStructure), by simp, rfl⟩
-        · exact ⟨(fSynonymGroupIds, encArr w.synonymGroupIds), by simp, rfl⟩
-      · refine h3 [(fSurface, encStr w.surface), (fHeadWordLength, encLen w.headWordLength), (fPosId, encU16 w.posId), (fNormalizedForm, encStr w.normalizedForm)] (fDicFormWordId, encI32 w.dictionaryFormWordId) _ rfl rfl (hq _ ?_)
-        intro d hd1 hd2
-        have : d = 4 ∨ d = 5 ∨ d = 6 ∨ d = 7 ∨ d = 8 ∨ d = 9 := by omega
-        rcases this with rfl | rfl | rfl | rfl | rfl | rfl
-        · exact ⟨(fDicFormWordId, encI32 w.dictionaryFormWordId), by simp, rfl⟩
-        · exact ⟨(fReadingForm, encStr w.readingForm), by simp, rfl⟩
-        · exact ⟨(fSplitA, encArr w.aUnitSplit), by simp, rfl⟩
-        · exact ⟨(fSplitB, encArr w.bUnitSplit), by simp, rfl⟩
-        · exact ⟨(fWordStructure, encArr w.wordStructure), by simp, rfl⟩
-        · exact ⟨(fSynonymGroupIds, encArr w.synonymGroupIds), by simp, rfl⟩
+      · refine h3 [(fSurface, encStr w.surface)] (fHeadWordLength, encLen w.headWordLength) _ rfl rfl ⟨c, hc, ?_⟩
+        intro q hq
+        simp only [List.mem_cons, List.not_mem_nil, or_false] at hq
+        subst hq
+        show SURFACE ≠ c
+        unfold SURFACE; omega
+      · refine h3 [(fSurface, encStr w.surface), (fHeadWordLength, encLen w.headWordLength)] (fPosId, encU16 w.posId) _ rfl rfl ⟨c, hc, ?_⟩
+        intro q hq
+        simp only [List.mem_cons, List.not_mem_nil, or_false] at hq
+        rcases hq with rfl | rfl
+        · show SURFACE ≠ c
+          unfold SURFACE; omega
+        · show HEAD_WORD_LENGTH ≠ c
+          unfold HEAD_WORD_LENGTH; omega
+      · refine h3 [(fSurface, encStr w.surface), (fHeadWordLength, encLen w.headWordLength), (fPosId, encU16 w.posId), (fNormalizedForm, encStr w.normalizedForm)] (fDicFormWordId, encI32 w.dictionaryFormWordId) _ rfl rfl ⟨c, hc, ?_⟩
+        intro q hq
+        simp only [List.mem_cons, List.not_mem_nil, or_false] at hq
+        rcases hq with rfl | rfl | rfl | rfl
+        · show SURFACE ≠ c
+          unfold SURFACE; omega
+        · show HEAD_WORD_LENGTH ≠ c
+          unfold HEAD_WORD_LENGTH; omega
+        · show POS_ID ≠ c
+          unfold POS_ID; omega
+        · show NORMALIZED_FORM ≠ c
+          unfold NORMALIZED_FORM; omega
   · have := h4 10 (by
       intro p hp
       simp only [encode, List.mem_cons, List.not_mem_nil, or_false] at hp
       rcases hp with rfl | rfl | rfl | rfl | rfl | rfl | rfl | rfl | rfl | rfl <;> (simp only []; decide))
     simpa [proj] using this
+
+/-- field number `b` is NOT assigned by a parse with request `S`: a heavy field that is not
+requested; a light field such that every bit set in `S` is below it (the macro returns before it).
+Complement of `Loaded` (`loaded_or_unloaded`). -/
+def Unloaded (S b : Nat) : Prop :=
+  b < 10 ∧ (if b = 1 ∨ b = 2 ∨ b = 4 then ∀ c, S.testBit c = true → c < b else S.testBit b = false)
+
+theorem loaded_or_unloaded (S b : Nat) (hb : b < 10) : Loaded S b ∨ Unloaded S b := by
+  by_cases hl : b = 1 ∨ b = 2 ∨ b = 4
+  · by_cases hc : ∃ c, b ≤ c ∧ S.testBit c = true
+    · exact Or.inl ⟨hb, Or.inr ⟨hl, hc⟩⟩
+    · refine Or.inr ⟨hb, ?_⟩
+      rw [if_pos hl]
+      intro c hcb
+      apply Nat.lt_of_not_le
+      intro hle
+      exact hc ⟨c, hle, hcb⟩
+  · cases hS : S.testBit b with
+    | true => exact Or.inl ⟨hb, Or.inl hS⟩
+    | false => exact Or.inr ⟨hb, by rw [if_neg hl]; exact hS⟩
+
+theorem not_loaded_of_unloaded {S b : Nat} (hu : Unloaded S b) : ¬ Loaded S b := by
+  intro hl
+  obtain ⟨_, hu⟩ := hu
+  obtain ⟨_, hl⟩ := hl
+  by_cases hlight : b = 1 ∨ b = 2 ∨ b = 4
+  · rw [if_pos hlight] at hu
+    rcases hl with h | ⟨_, c, hbc, hc⟩
+    · have := hu b h; omega
+    · have := hu c hc; omega
+  · rw [if_neg hlight] at hu
+    rcases hl with h | ⟨h, _⟩
+    · rw [hu] at h; cases h
+    · exact hlight h
+
+/-- **Fields that are not loaded keep their defaults** (`WordInfoData::default()`: 0 / empty). -/
+theorem parse_unloaded (w : WordInfoData) (h : WF w) (S : Nat) (rest : Bytes) (info : WordInfoData)
+    (hp : parse S (encodeBytes w ++ rest) = .ok info) : ∀ b, Unloaded S b → proj b info = proj b {} := by
+  have hp' : parseGo ((encode w).map (·.1)) S (encAll (encode w) ++ rest) {} = .ok info := by
+    rw [encode_fields w]; exact hp
+  obtain ⟨h1, h2, _⟩ := parseGo_unloaded w rest (encode w) S {} info (encode_ok w h) (encode_distinct w) hp'
+  intro b hb
+  obtain ⟨hb10, hb⟩ := hb
+  have : b = 0 ∨ b = 1 ∨ b = 2 ∨ b = 3 ∨ b = 4 ∨ b = 5 ∨ b = 6 ∨ b = 7 ∨ b = 8 ∨ b = 9 := by omega
+  rcases this with rfl | rfl | rfl | rfl | rfl | rfl | rfl | rfl | rfl | rfl
+  · exact h1 (fSurface, encStr w.surface) (by simp [encode]) rfl (by have hb' := hb; rw [if_neg (by omega)] at hb'; exact hb')
+  · refine h2 [(fSurface, encStr w.surface)] (fHeadWordLength, encLen w.headWordLength) _ rfl rfl ?_
+    intro c hc
+    have hlt : c < 1 := by simpa using hb c hc
+    have : c = 0 := by omega
+    subst this
+    exact ⟨(fSurface, encStr w.surface), by simp, rfl⟩
+  · refine h2 [(fSurface, encStr w.surface), (fHeadWordLength, encLen w.headWordLength)] (fPosId, encU16 w.posId) _ rfl rfl ?_
+    intro c hc
+    have hlt : c < 2 := by simpa using hb c hc
+    have : c = 0 ∨ c = 1 := by omega
+    rcases this with rfl | rfl
+    · exact ⟨(fSurface, encStr w.surface), by simp, rfl⟩
+    · exact ⟨(fHeadWordLength, encLen w.headWordLength), by simp, rfl⟩
+  · exact h1 (fNormalizedForm, encStr w.normalizedForm) (by simp [encode]) rfl (by have hb' := hb; rw [if_neg (by omega)] at hb'; exact hb')
+  · refine h2 [(fSurface, encStr w.surface), (fHeadWordLength, encLen w.headWordLength), (fPosId, encU16 w.posId), (fNormalizedForm, encStr w.normalizedForm)] (fDicFormWordId, encI32 w.dictionaryFormWordId) _ rfl rfl ?_
+    intro c hc
+    have hlt : c < 4 := by simpa using hb c hc
+    have : c = 0 ∨ c = 1 ∨ c = 2 ∨ c = 3 := by omega
+    rcases this with rfl | rfl | rfl | rfl
+    · exact ⟨(fSurface, encStr w.surface), by simp, rfl⟩
+    · exact ⟨(fHeadWordLength, encLen w.headWordLength), by simp, rfl⟩
+    · exact ⟨(fPosId, encU16 w.posId), by simp, rfl⟩
+    · exact ⟨(fNormalizedForm, encStr w.normalizedForm), by simp, rfl⟩
+  · exact h1 (fReadingForm, encStr w.readingForm) (by simp [encode]) rfl (by have hb' := hb; rw [if_neg (by omega)] at hb'; exact hb')
+  · exact h1 (fSplitA, encArr w.aUnitSplit) (by simp [encode]) rfl (by have hb' := hb; rw [if_neg (by omega)] at hb'; exact hb')
+  · exact h1 (fSplitB, encArr w.bUnitSplit) (by simp [encode]) rfl (by have hb' := hb; rw [if_neg (by omega)] at hb'; exact hb')
+  · exact h1 (fWordStructure, encArr w.wordStructure) (by simp [encode]) rfl (by have hb' := hb; rw [if_neg (by omega)] at hb'; exact hb')
+  · exact h1 (fSynonymGroupIds, encArr w.synonymGroupIds) (by simp [encode]) rfl (by have hb' := hb; rw [if_neg (by omega)] at hb'; exact hb')
+
+/-- `parse_spec` with the complement: loaded fields hold the word's values, all others the defaults -/
+theorem parse_spec_full (w : WordInfoData) (h : WF w) (S : Nat) (rest : Bytes) :
+    ∃ info, parse S (encodeBytes w ++ rest) = .ok info ∧
+      (∀ b, Loaded S b → proj b info = proj b w) ∧ (∀ b, Unloaded S b → proj b info = proj b {}) ∧
+      info.dictionaryForm = [] := by
+  obtain ⟨info, h1, h2, h3⟩ := parse_spec w h S rest
+  exact ⟨info, h1, h2, parse_unloaded w h S rest info h1, h3⟩
 
 /-! ## D. `get_word_info`, `normalize` -/
 
@@ -608,6 +788,90 @@ theorem getWordInfo_spec (ws : List WordInfoData) (hwf : ∀ w ∈ ws, WF w) (hd
     rw [← hd]
     simp [dicFormOf, hc, d0]
 
+theorem parseWordInfo_spec_full (ws : List WordInfoData) (hwf : ∀ w ∈ ws, WF w) (hasSyn : Bool)
+    (k : Nat) (hk : k < ws.length) (S : Nat) :
+    ∃ info, parseWordInfo (lexOf ws hasSyn) k S = .ok info ∧
+      (∀ b, Loaded S b → proj b info = proj b ws[k]) ∧ (∀ b, Unloaded S b → proj b info = proj b {}) ∧
+      info.dictionaryForm = [] := by
+  obtain ⟨info, h1, h2, h3, h4⟩ := parse_spec_full ws[k] (hwf _ (List.getElem_mem hk)) S []
+  refine ⟨info, ?_, h2, h3, h4⟩
+  simp only [parseWordInfo, lexOf, List.getElem?_map, List.getElem?_eq_getElem hk, Option.map_some]
+  simpa using h1
+
+/-- the consult of `get_word_info`, given the outcome of the first parse: it cannot fail when the id
+it reads (loaded, or the default 0) is negative or inside the lexicon -/
+theorem getWordInfo_of_parse (ws : List WordInfoData) (hwf : ∀ w ∈ ws, WF w) (hasSyn : Bool)
+    (k : Nat) (S : Nat) (i0 : WordInfoData)
+    (e0 : parseWordInfo (lexOf ws hasSyn) k (effSubset hasSyn S) = .ok i0) (d0 : i0.dictionaryForm = [])
+    (hin : i0.dictionaryFormWordId < 0 ∨ i0.dictionaryFormWordId.toNat < ws.length) :
+    ∃ info, getWordInfo (lexOf ws hasSyn) k S = .ok info ∧
+      (∀ b, b < 10 → proj b info = proj b i0) ∧
+      info.dictionaryForm = dicFormOf ws k i0.dictionaryFormWordId := by
+  have hlex : (lexOf ws hasSyn).hasSyn = hasSyn := rfl
+  unfold getWordInfo
+  simp only [hlex]
+  change ∃ info, (match parseWordInfo (lexOf ws hasSyn) k (effSubset hasSyn S) with
+      | .ok wi =>
+        if wi.dictionaryFormWordId ≥ 0 ∧ wi.dictionaryFormWordId ≠ (k : Int) then
+          match parseWordInfo (lexOf ws hasSyn) wi.dictionaryFormWordId.toNat (2 ^ SURFACE) with
+          | .ok inner => Res.ok { wi with dictionaryForm := inner.surface }
+          | .err => .err
+          | .panic => .panic
+        else .ok wi
+      | .err => .err
+      | .panic => .panic) = .ok info ∧ _
+  rw [e0]
+  simp only []
+  by_cases hc : i0.dictionaryFormWordId ≥ 0 ∧ i0.dictionaryFormWordId ≠ (k : Int)
+  · have hlt : i0.dictionaryFormWordId.toNat < ws.length := by
+      rcases hin with h | h
+      · omega
+      · exact h
+    obtain ⟨inner, e1, l1, _⟩ := parseWordInfo_spec ws hwf hasSyn _ hlt (2 ^ SURFACE)
+    have hs : inner.surface = ws[i0.dictionaryFormWordId.toNat].surface := by
+      have := l1 0 ⟨by omega, Or.inl (by simp [SURFACE])⟩
+      simpa [proj] using this
+    rw [if_pos hc]
+    simp only [e1]
+    refine ⟨_, rfl, fun b hb => proj_setDicForm b hb i0 _, ?_⟩
+    show inner.surface = _
+    simp [dicFormOf, hc, hs, List.getElem?_eq_getElem hlt]
+  · rw [if_neg hc]
+    refine ⟨i0, rfl, fun _ _ => rfl, ?_⟩
+    simp [dicFormOf, hc, d0]
+
+/-- **`get_word_info`, every request.**  Succeeds; loaded fields hold the word's values, all other
+stored fields keep their defaults; the dictionary-form string is the surface of the word the id
+designates — the word's own id when it is loaded, and the DEFAULT id 0 when it is not (the code
+consults word 0 then; that consult cannot fail: word 0 exists because word `k` does). -/
+theorem getWordInfo_spec_full (ws : List WordInfoData) (hwf : ∀ w ∈ ws, WF w) (hdf : DfOk ws) (hasSyn : Bool)
+    (k : Nat) (hk : k < ws.length) (S : Nat) :
+    ∃ info, getWordInfo (lexOf ws hasSyn) k S = .ok info ∧
+      (∀ b, Loaded (effSubset hasSyn S) b → proj b info = proj b ws[k]) ∧
+      (∀ b, Unloaded (effSubset hasSyn S) b → proj b info = proj b {}) ∧
+      (Loaded (effSubset hasSyn S) 4 → info.dictionaryForm = dicFormOf ws k ws[k].dictionaryFormWordId) ∧
+      (Unloaded (effSubset hasSyn S) 4 → info.dictionaryForm = dicFormOf ws k 0) := by
+  obtain ⟨i0, e0, l0, u0, d0⟩ := parseWordInfo_spec_full ws hwf hasSyn k hk (effSubset hasSyn S)
+  have hin : i0.dictionaryFormWordId < 0 ∨ i0.dictionaryFormWordId.toNat < ws.length := by
+    rcases loaded_or_unloaded (effSubset hasSyn S) 4 (by omega) with h | h
+    · have hd : i0.dictionaryFormWordId = ws[k].dictionaryFormWordId := by
+        simpa [proj] using l0 4 h
+      rw [hd]
+      exact hdf _ (List.getElem_mem hk)
+    · have hd : i0.dictionaryFormWordId = 0 := by
+        simpa [proj] using u0 4 h
+      right; rw [hd]; simpa using (by omega : 0 < ws.length)
+  obtain ⟨info, e, hp, hdform⟩ := getWordInfo_of_parse ws hwf hasSyn k S i0 e0 d0 hin
+  refine ⟨info, e, ?_, ?_, ?_, ?_⟩
+  · intro b hb; rw [hp b hb.1]; exact l0 b hb
+  · intro b hb; rw [hp b hb.1]; exact u0 b hb
+  · intro h
+    have hd : i0.dictionaryFormWordId = ws[k].dictionaryFormWordId := by simpa [proj] using l0 4 h
+    rw [hdform, hd]
+  · intro h
+    have hd : i0.dictionaryFormWordId = 0 := by simpa [proj] using u0 4 h
+    rw [hdform, hd]
+
 theorem testBit_normalize_of (v : NzVariant) (S b : Nat) (h : S.testBit b = true) : (normalize v S).testBit b = true := by
   unfold normalize
   simp only []
@@ -663,6 +927,18 @@ structure FieldsEq (S : Nat) (a b : WordInfoData) : Prop where
 theorem all_testBit {j : Nat} (hj : j < 10) : ALL.testBit j = true := by
   have : j = 0 ∨ j = 1 ∨ j = 2 ∨ j = 3 ∨ j = 4 ∨ j = 5 ∨ j = 6 ∨ j = 7 ∨ j = 8 ∨ j = 9 := by omega
   rcases this with rfl | rfl | rfl | rfl | rfl | rfl | rfl | rfl | rfl | rfl <;> decide
+
+theorem effSubset_all_of (hasSyn : Bool) (S : Nat) :
+    ∀ j, j < 10 → (effSubset hasSyn S).testBit j = true → (effSubset hasSyn ALL).testBit j = true := by
+  intro j hj h
+  unfold effSubset at h ⊢
+  split
+  · rename_i hs
+    rw [if_pos hs, testBit_remove] at h
+    rw [testBit_remove, all_testBit hj]
+    simp at h ⊢
+    exact h.2
+  · exact all_testBit hj
 
 /-- helper: agreement with the word on the loaded fields gives `FieldsEq` -/
 theorem fieldsEq_of_proj {S T U : Nat} {a b w : WordInfoData}
